@@ -9,6 +9,9 @@
    (`Pipeline.submit`: MakeInline() calls inside Submit, MakeInline(StopTag) drops inside Submit, a user executor accepts its
    first `limit` Submits and then queues or calls in place, and answers every later Submit with Drop).
 
+   A functor OWNS state (a number); a job is identified by the state its functor had when it was submitted.  The client may
+   keep NAMED functors (`fns`), submit them as lvalues (the job gets a copy), change or destroy them afterwards: none of this
+   reaches a job that was submitted before.
    The ghost lists `submitted`, `called`, `dropped` record what happened to every functor (by its number); `queue` are the
    UniqueJobs lying in user queue executors.  Props/C05.lean proves: every submitted job is in exactly one of the three places,
    it is dropped iff its executor refused it, nothing is called by a stopped executor, and every UniqueJob is deleted exactly
@@ -28,17 +31,28 @@ deriving DecidableEq, Repr
 structure FState where
   g : G := {}                      -- subs / jobs / invoked / ran as in the pipeline model
   queue : List QJob := []          -- FIFO
-  submitted : List Nat := []       -- ghost: functor numbers handed to Submit(e, f), in order
-  called : List Nat := []          -- ghost: functors that were invoked (UniqueJob::Call)
+  fns : List (Nat × Nat) := []     -- the CLIENT's named functors: name ↦ the state (tag) it currently owns
+  submitted : List Nat := []       -- ghost: functor states handed to Submit(e, f), in order
+  called : List Nat := []          -- ghost: functors that were invoked (UniqueJob::Call), by the state they ran with
   dropped : List Nat := []         -- ghost: functors that were destroyed without being invoked (UniqueJob::Drop)
   refused : List Nat := []         -- ghost: functors whose executor refused the Submit (stopped)
   news : Nat := 0                  -- UniqueJobs allocated (MakeUniqueJob)
   deletes : Nat := 0               -- UniqueJobs deleted (`delete this`)
 deriving Repr
 
+/-- how the body of a functor ends.  `SafeCall::Call` is `try { f() } catch (...) {}` (or a plain call when f is nothrow
+    invocable): whatever the body does, UniqueJob::Call goes on to `Drop()`, the job counts as Called and the executor is
+    not disturbed — `fmech` does not look at the outcome (`free_job_body_outcome_irrelevant`) -/
+inductive Outcome | ret | throwStd | throwInt | throwUser
+deriving DecidableEq, Repr
+
 inductive FEvent
-  | submit (e : Exec) (id : Nat)   -- the client calls yaclib::Submit(e, f_id)
-  | call (k : Nat)                 -- the client lets user queue executor k run its oldest job
+  | submit (e : Exec) (id : Nat) (o : Outcome)   -- yaclib::Submit(e, F{id}): an rvalue functor owning state `id`
+  | mk (n : Nat) (tag : Nat) (o : Outcome)        -- the client creates the named functor f_n owning state `tag`
+  | submitL (e : Exec) (n : Nat)                  -- yaclib::Submit(e, f_n): an LVALUE — the job gets a COPY of f_n
+  | change (n : Nat) (tag : Nat)                   -- the client changes the state of f_n
+  | kill (n : Nat)                                -- the client destroys f_n
+  | call (k : Nat)                                -- the client lets user queue executor k run its oldest job
 deriving DecidableEq, Repr
 
 /-- does executor `e` refuse the next Submit?  (IExecutor contract: Drop only when not Alive) -/
@@ -48,16 +62,27 @@ def refuses (cfg : Cfg) (e : Exec) (subs : List Nat) : Bool :=
   | .stp => true
   | .user k => rejects cfg subs k
 
+/-- `Submit(e, f)` for a functor whose state is `id` AT THIS MOMENT: MakeUniqueJob constructs the job's own functor from
+    `std::forward<Func>(f)` — moved from an rvalue, COPIED from an lvalue — so the job carries `id` from here on -/
+def submitId (cfg : Cfg) (s : FState) (e : Exec) (id : Nat) : FState :=
+  let s := { s with submitted := s.submitted ++ [id], news := s.news + 1,
+                    refused := if refuses cfg e s.g.subs then s.refused ++ [id] else s.refused }
+  match submit cfg e none s.g with
+  | .callNow ctx g =>     -- UniqueJob::Call inside Submit: f(), then Drop() = delete this
+    { s with g := g.invoke id ctx (some e), called := s.called ++ [id], deletes := s.deletes + 1 }
+  | .dropNow _ g =>       -- UniqueJob::Drop inside Submit: delete this
+    { s with g := g, dropped := s.dropped ++ [id], deletes := s.deletes + 1 }
+  | .queued jid k g => { s with g := g, queue := s.queue ++ [⟨jid, k, id⟩] }
+
 def fmech (cfg : Cfg) (s : FState) : FEvent → FState
-  | .submit e id =>
-    let s := { s with submitted := s.submitted ++ [id], news := s.news + 1,
-                      refused := if refuses cfg e s.g.subs then s.refused ++ [id] else s.refused }
-    (match submit cfg e none s.g with
-     | .callNow ctx g =>     -- UniqueJob::Call inside Submit: f(), then Drop() = delete this
-       { s with g := g.invoke id ctx (some e), called := s.called ++ [id], deletes := s.deletes + 1 }
-     | .dropNow _ g =>       -- UniqueJob::Drop inside Submit: delete this
-       { s with g := g, dropped := s.dropped ++ [id], deletes := s.deletes + 1 }
-     | .queued jid k g => { s with g := g, queue := s.queue ++ [⟨jid, k, id⟩] })
+  | .submit e id _ => submitId cfg s e id
+  | .mk n tag _ => { s with fns := (n, tag) :: s.fns.filter (fun x => x.1 != n) }
+  | .submitL e n =>
+    (match s.fns.lookup n with
+     | some tag => submitId cfg s e tag      -- the caller's f_n is left as it is (`s.fns` unchanged)
+     | none => s)
+  | .change n tag => { s with fns := s.fns.map fun x => if x.1 == n then (n, tag) else x }
+  | .kill n => { s with fns := s.fns.filter (fun x => x.1 != n) }
   | .call k =>
     (match s.queue.find? (fun j => j.k == k) with
      | none => s
